@@ -29,11 +29,11 @@ def mount_rw(img, sched=None):
         sdev = S.SchedDevice(dev, sched) if sched else dev
         f = PyFatBytesIOFS(sdev)
     if sched:
-        f.fs._PyFat__lock = S.SLock(sched, "dev")
         f._lock = S.SLock(sched, "fs", reentrant=True)
-        if hasattr(f.fs, "fs_lock"):
-            f.fs.fs_lock = S.SLock(sched, "fsl", reentrant=True)
-            sdev.guard = f.fs.fs_lock       # the premise of C19_linearizable: every modification happens inside the filesystem lock
+        locks = S.hook_locks(f.fs, sched, {"_PyFat__lock": "dev", "fs_lock": "fsl"})
+        fs_level = [l for k, l in locks.items() if k != "_PyFat__lock"]
+        if fs_level:
+            sdev.guard = fs_level[0]        # the premise of C19_linearizable: every modification happens inside the filesystem lock
         dev.sdev = sdev
     return f, dev
 
